@@ -24,6 +24,24 @@ Expected(e) ==
 
 ObsOk(e) == e.obs # <<>> /\ IsRgb(e.obs)
 
+\* hsl() with more decimals than the grid (hue between two integer degrees, S and L between two tenths of a percent):
+\* every channel is affine in each of H, S, L between neighbouring grid points, so the exact value lies between the
+\* values at the 8 corners; admissible = any byte between the smallest and the largest admissible corner value.
+CornerVals(e, c) == UNION {HslToRgb(h, s, l)[c] : h \in {e.hl, e.hh}, s \in {e.sl, e.sh}, l \in {e.ll, e.lh}}
+Lo(S) == CHOOSE x \in S : \A y \in S : x <= y
+Hi(S) == CHOOSE x \in S : \A y \in S : x >= y
+FineFails(e) ==
+  IF ~ObsOk(e) THEN {"C07_Rejected_" \o e.k}
+  ELSE IF e.k = "hslx"
+       THEN (IF \A c \in 1..3 : e.obs[c] >= Lo(CornerVals(e, c)) /\ e.obs[c] <= Hi(CornerVals(e, c)) THEN {} ELSE {"C07_Value_hslx"})
+       ELSE \* hslax: composited; the foreground lies within the corner range, allow the blend of either end (+1.5)
+            (IF \A c \in 1..3 :
+                  LET flo == Lo(CornerVals(e, c))  fhi == Hi(CornerVals(e, c))
+                      blo == flo * e.an + e.bg[c] * (e.ad - e.an)
+                      bhi == fhi * e.an + e.bg[c] * (e.ad - e.an)
+                  IN 2 * e.obs[c] * e.ad >= 2 * Min(blo, bhi) - 3 * e.ad /\ 2 * e.obs[c] * e.ad <= 2 * Max(blo, bhi) + 3 * e.ad
+             THEN {} ELSE {"C07_Composite_hslax"})
+
 OpaqueFails(e) ==
   IF ~ObsOk(e) THEN {"C07_Rejected_" \o e.k}
   ELSE IF Admits(Expected(e), e.obs) THEN {} ELSE {"C07_Value_" \o e.k}
@@ -45,6 +63,7 @@ RefFails(e) ==
 Observe ==
   /\ i <= Len(Traces[tid])
   /\ fails' = fails \cup (CASE Ev.k \in {"rgba", "hsla"} -> TranslucentFails(Ev)
+                            [] Ev.k \in {"hslx", "hslax"} -> FineFails(Ev)
                             [] Ev.k = "ref" -> RefFails(Ev)
                             [] OTHER -> OpaqueFails(Ev))
   /\ nt' = nt + 1
